@@ -108,6 +108,7 @@ def fresh_diagnostics(doc, text):
     return _FRESH[key]
 
 
+UNANSWERED = [0]
 SESSION_POSITIONS = [(0, 0), (0, 5), (1, 9), (50, 0)]
 
 
@@ -118,6 +119,8 @@ def session_requests(c, model, step_no):
     current text. -> (violations, number of requests)"""
     viol = []
     ids = {}
+    if UNANSWERED[0] >= 3:
+        return viol, 0          # this worker has waited out three unanswered requests already: the finding is recorded, go on with the traces
     for doc in ("a.ucg", "lib.ucg", "never-seen.ucg"):
         uri = c.uri(doc)
         for (line, ch) in SESSION_POSITIONS:
@@ -131,6 +134,7 @@ def session_requests(c, model, step_no):
         state = "open" if doc in model else ("closed-or-never-opened" if doc != "never-seen.ucg" else "unknown-uri")
         if m is None:
             viol.append(("request-not-answered:%s:%s-document" % (kind, state), {"doc": doc, "position": [line, ch], "after_step": step_no}))
+            UNANSWERED[0] += 1
             break
         if doc in model:
             if "error" in m:
